@@ -381,6 +381,34 @@ fn gen_pipe(t: &mut Tape, force_inf: bool, no_inf_flatten: bool, redirected: &mu
     let mut has_wc = false;
     let mut lookahead = 2usize;
     let n = 1 + t.below(7);
+    if !force_inf && t.below(10) == 0 {
+        // a stream that turns out EMPTY, repeated without bound (yields nothing), optionally mapped /
+        // skipped, then chained: the result is exactly the other operand of the chain
+        match t.below(3) {
+            0 => stages.push(Stage::Take(0)),
+            1 => stages.push(Stage::TakeWhile(-100)),
+            _ => {
+                stages.push(Stage::Take(t.below(4)));
+                stages.push(Stage::Skip(4));
+            }
+        }
+        stages.push(Stage::Repeat);
+        match t.below(3) {
+            0 => stages.push(Stage::Map),
+            1 => stages.push(Stage::Skip(t.below(3))),
+            _ => {}
+        }
+        maybe_inf = false;
+        stages.push(match t.below(3) {
+            0 => Stage::AddArr(arr(t, 4)),
+            1 => {
+                maybe_inf = true;
+                Stage::AddCount
+            }
+            _ => Stage::PrependArr(arr(t, 4)),
+        });
+        lookahead += 8;
+    }
     for _ in 0..n {
         let st = match t.below(23) {
             0 | 1 => Stage::Map,
